@@ -88,29 +88,6 @@ example : lifeOf [.ev 0 "OPENED", .ev 0 "ACTIVATED", .tx 0 [1], .ev 1 "OPENED", 
 
 /-- non-vacuity on a concrete history: a client connects and sends STARTDT act - slot 0 is in use and started, the log
 says OPENED, ACTIVATED, and the counter is 1 -/
-def lenvPending (sk : Sock) : LEnv where
-  f s := { s with pending := s.pending ++ [sk] }
-  len _ := rfl
-  conn _ _ := rfl
-  log _ := rfl
-  oc _ := rfl
-
-def lenvFeed (i : Nat) (bytes : List Nat) : LEnv where
-  f s := s.setConn i { s.conn i with sock := { (s.conn i).sock with chunks := (s.conn i).sock.chunks ++ [bytes] } }
-  len s := setConn_len _ _ _
-  conn s j := by
-    by_cases hj : j = i
-    · subst hj
-      by_cases hl : j < s.conns.length
-      · rw [conn_setConn _ _ _ hl]
-      · have hs : ∀ c, s.conns.set j c = s.conns := fun c => List.set_eq_of_length_le (Nat.le_of_not_lt hl)
-        have : ∀ c, (s.setConn j c).conn j = s.conn j := by intro c; unfold Slave.conn Slave.setConn; simp only [hs]
-        rw [this]
-    · rw [conn_setConn_ne _ _ _ _ hj]
-  log _ := rfl
-  oc _ := rfl
-
-def lifeDemoParams : Params := { k := 2, w := 1, t0 := 10, t1 := 15, t2 := 10, t3 := 20, mode := 0, maxOpen := 0, lowQ := 4, highQ := 4, asduHdr := 6, replies := 0, nSlots := 2 }
 def lifeDemoOps : List LOp := [.env (lenvPending {}), .tick, .env (lenvFeed 0 [0x68, 4, 7, 0, 0, 0]), .tick]
 example : let s := lifeDemoOps.foldl LOp.apply (create lifeDemoParams [])
     (s.conn 0).isUsed = true ∧ (s.conn 0).state = 1 ∧ lifeOf s.log 0 = 2 ∧ s.openConnections = 1 ∧
